@@ -214,21 +214,28 @@ def _alarm(signum, frame):
 
 
 def execute(check, scenario, seed, replay_streams=None, timeout=None):
+    """One run under two watchdogs: `t` seconds of PROCESS CPU TIME (ITIMER_PROF: independent of how busy the machine
+    is - a wall-clock limit false-alarmed when a legitimately heavy run met an oversubscribed machine) and a wall-clock
+    backstop at 10 t for anything that blocks without consuming CPU."""
     ctx = Ctx(seed, replay_streams)
     t = timeout or getattr(check, "RUN_TIMEOUT", 60.0)
-    old = signal.signal(signal.SIGALRM, _alarm)
-    signal.setitimer(signal.ITIMER_REAL, t)
+    old_alrm = signal.signal(signal.SIGALRM, _alarm)
+    old_prof = signal.signal(signal.SIGPROF, _alarm)
+    signal.setitimer(signal.ITIMER_PROF, t)
+    signal.setitimer(signal.ITIMER_REAL, 10 * t)
     try:
         check.execute(scenario, ctx)
     except SimHang:
         # ctx.call() catches the watchdog while LIBRARY code runs (status "hang", judged by the check).  If it
         # gets here it fired in scenario construction or in an oracle: that is the harness's time, not the
         # library's, and must never be reported as a violation.
-        raise HarnessError(f"wall-clock watchdog ({t:.0f}s) fired outside a library call (oracle or scenario "
+        raise HarnessError(f"watchdog ({t:.0f}s CPU / {10 * t:.0f}s wall) fired outside a library call (oracle or scenario "
                            f"construction too slow) in {check.ID}")
     finally:
+        signal.setitimer(signal.ITIMER_PROF, 0)
         signal.setitimer(signal.ITIMER_REAL, 0)
-        signal.signal(signal.SIGALRM, old)
+        signal.signal(signal.SIGALRM, old_alrm)
+        signal.signal(signal.SIGPROF, old_prof)
         simrandom.SIM.src = None
     return ctx
 
@@ -438,6 +445,19 @@ class Engine:
             by_key.setdefault((clause, finding), []).append((idx, detail))
         unknown = 0
         for (clause, finding), items in sorted(by_key.items(), key=lambda kv: kv[1][0][0]):
+            if all((": hang" in d or "wall clock" in d) for _, d in items):
+                # "no result" verdicts rest on a time limit: each must reproduce when the run is executed again with
+                # three times the limit, otherwise it was a slow run, not a hang, and is only counted
+                kept = []
+                for idx, d in items[:5]:
+                    rs, sc = make_scenario(self.check, self.seed, idx, self.tier)
+                    c2 = execute(self.check, sc, rs, timeout=3 * getattr(self.check, "RUN_TIMEOUT", 60.0))
+                    if _matching(c2, clause, finding) is not None:
+                        kept.append((idx, d))
+                self.extra["timeouts_not_reproduced"] = self.extra.get("timeouts_not_reproduced", 0) + len(items[:5]) - len(kept)
+                if not kept:
+                    continue
+                items = kept
             if finding and finding in open_ids:
                 self.known_lines.append(
                     f"KNOWN-FINDING: property={self.cid} {finding}: {open_ids[finding].get('what', '')} "
